@@ -180,6 +180,12 @@ func (cs c12Case) build(root string) c12Built {
 		// a named volume next to the path attribute: its source must never be rewritten
 		s["volumes"] = append(anyList(s["volumes"]), kvm("type", "volume", "source", "named", "target", "/named"))
 		doc["volumes"] = kvm("named", nil)
+		if cs.Noise {
+			// devices that are not the bind device of a `local` driver volume stay as written
+			doc["volumes"].(map[string]any)["noise-otherdriver"] = kvm("driver", "acme/bindfs", "driver_opts", kvm("type", "none", "o", "bind", "device", "./exports/data"))
+			doc["volumes"].(map[string]any)["noise-nfs"] = kvm("driver", "local", "driver_opts", kvm("type", "nfs", "o", "addr=10.0.0.1,rw", "device", ":/exports/data"))
+			doc["volumes"].(map[string]any)["noise-tmpfs"] = kvm("driver", "local", "driver_opts", kvm("type", "tmpfs", "device", "tmpfs", "o", "size=100m"))
+		}
 		mergeInto(doc, cloneTree(topFrag).(map[string]any))
 		return doc
 	}
@@ -333,6 +339,15 @@ func c12Check(c *Ctx, cs c12Case) *Failure {
 			svc.Environment["P"] == nil || *svc.Environment["P"] != "./x" || *svc.Environment["Q"] != "../x" {
 			return failf("c12:non-path-attribute-rewritten", "%s: a non-path attribute was rewritten: working_dir=%q hostname=%q user=%q labels=%v command=%v entrypoint=%v env=%v", where,
 				svc.WorkingDir, svc.Hostname, svc.User, svc.Labels, svc.Command, svc.Entrypoint, envStr(svc.Environment))
+		}
+	}
+	if cs.Noise {
+		for name, want := range map[string]string{"noise-otherdriver": "./exports/data", "noise-nfs": ":/exports/data", "noise-tmpfs": "tmpfs"} {
+			if v, ok := on.Project.Volumes[name]; ok && v.DriverOpts["device"] != want {
+				return failf("c12:non-bind-device-rewritten:"+name, "%s: the device of volume %s (driver %q, opts %v) is not a local bind device but became %q", where, name, v.Driver, v.DriverOpts, v.DriverOpts["device"])
+			} else if !ok {
+				return failf("panic@harness:noise-volume-missing", "%s: volume %s is missing", where, name)
+			}
 		}
 	}
 	// resolution off: the same project except for path attributes (only origins where every file is read
